@@ -59,6 +59,16 @@ def real_history(ops):
             if classes:
                 reg.register(classes[op[1] % len(classes)])
             out.append(None)
+        elif op[0] == "register-bad":
+            feats = {"none": None, "int": 5, "unhashable-first": [["x"], "f0"]}[op[1]]
+            bad = type("Bad", (TreeBuilder,), {"features": feats})
+            try:
+                reg.register(bad)
+                out.append("no-exception")
+            except Exception as e:
+                # a registration that fails must leave the registry as it was: the class is in none of its tables
+                left = bad in reg.builders or any(bad in v for v in reg.builders_for_feature.values())
+                out.append("left-behind" if left else None)
         elif op[0] == "lookup":
             got = reg.lookup(*[f"f{f}" for f in op[1]])
             out.append(None if got is None else classes.index(got))
@@ -74,6 +84,69 @@ def real_history(ops):
                 _ = list(reg.builders)
             out.append(None)
     return out
+
+
+def helper_stream(ctx):
+    import sys, types
+    import bs4.builder as B
+    from bs4.builder import TreeBuilderRegistry, TreeBuilder
+    saved_reg, saved_all = B.builder_registry, list(B.__all__)
+    saved_attrs = {}
+    try:
+        for i in range(ctx.n(300, 3000)):
+            r = ctx.rng("helper", i)
+            B.builder_registry = TreeBuilderRegistry()
+            B.__all__[:] = saved_all
+            regs, cids, classes = [], [], []
+            steps = []
+            for _ in range(r.randint(1, 4)):
+                names = r.sample(["PlugA", "PlugB", "HTMLParserTreeBuilder", "TreeBuilder2", "helper_function", "CONSTANT"], r.randint(1, 4))
+                again = steps and r.random() < 0.3
+                if again:
+                    mod = steps[r.randrange(len(steps))][0]            # the SAME module object once more
+                else:
+                    mod = types.ModuleType(f"verif_plugin_{i}_{len(steps)}")
+                    mod.__all__ = []
+                    for nm in names:
+                        if nm in ("helper_function", "CONSTANT"):
+                            continue                                      # issubclass() needs classes; a module exports only builders here
+                        fs = r.choice([(0,), (1,), (0, 1), (2,), ()])
+                        cls = type(nm, (TreeBuilder,), {"features": [f"f{f}" for f in fs]})
+                        classes.append((cls, fs))
+                        setattr(mod, nm, cls)
+                        mod.__all__.append(nm)
+                steps.append((mod,))
+                for nm in mod.__all__:
+                    if nm not in saved_attrs:
+                        saved_attrs[nm] = getattr(B, nm, None)
+                B.register_treebuilders_from(mod)
+                for nm in mod.__all__:
+                    cls = getattr(mod, nm)
+                    k = next(j for j, (c, _) in enumerate(classes) if c is cls)
+                    regs.append(classes[k][1]); cids.append(k)
+            bad = None
+            for req in [(), (0,), (1,), (0, 1), (2,), (9,), (1, 0)]:
+                got = B.builder_registry.lookup(*[f"f{f}" for f in req])
+                wi = spec_lookup(regs, req)
+                want = None if wi is None else classes[cids[wi]][0]
+                ctx.count("helper:lookups")
+                if got is not want and bad is None:
+                    bad = (req, None if want is None else want.__name__, None if got is None else got.__name__)
+            ctx.case(("HLP", i) if len(regs) >= 2 else None)
+            if bad:
+                ctx.violation("after register_treebuilders_from(...) the registry does not answer for the classes the modules export, in export order",
+                              case={"op": "helper", "seed_index": i, "exports": [[getattr(m[0], n).__name__ for n in m[0].__all__] for m in steps],
+                                    "features": [[list(getattr(m[0], n).features) for n in m[0].__all__] for m in steps], "request": list(bad[0])},
+                              expected=bad[1], observed=bad[2], stream="helper")
+    finally:
+        B.builder_registry = saved_reg
+        B.__all__[:] = saved_all
+        for nm, v in saved_attrs.items():
+            if v is None:
+                if hasattr(B, nm):
+                    delattr(B, nm)
+            else:
+                setattr(B, nm, v)
 
 
 def fmt_regs(regs):
@@ -95,8 +168,9 @@ def fname(n):
     return "" if n == 7 else f"f{n}"
 
 
-def constructor_case(regs, builder_arg, features_arg, kw):
-    """Run the real constructor against a private registry of harness builders."""
+def constructor_case(regs, builder_arg, features_arg, kw, subdefault=None):
+    """Run the real constructor against a private registry of harness builders. `subdefault`: construct a SUBCLASS of BeautifulSoup that
+    overrides DEFAULT_BUILDER_FEATURES with these feature ids (the base class keeps f0,f1)."""
     import bs4
     from bs4 import BeautifulSoup, FeatureNotFound
     from bs4.builder import TreeBuilderRegistry, HTMLParserTreeBuilder
@@ -138,8 +212,11 @@ def constructor_case(regs, builder_arg, features_arg, kw):
     try:
         with warnings.catch_warnings(record=True) as w:
             warnings.simplefilter("always")
+            cls = BeautifulSoup
+            if subdefault is not None:
+                cls = type("SubSoup", (BeautifulSoup,), {"DEFAULT_BUILDER_FEATURES": [fname(f) for f in subdefault]})
             try:
-                soup = BeautifulSoup("<a>x</a>", features=farg, builder=barg, **kwargs)
+                soup = cls("<a>x</a>", features=farg, builder=barg, **kwargs)
             except FeatureNotFound:
                 return "fnf"
             ignored = any("Keyword arguments to the BeautifulSoup constructor will be ignored" in str(x.message) for x in w)
@@ -160,7 +237,7 @@ def constructor_case(regs, builder_arg, features_arg, kw):
         BeautifulSoup.DEFAULT_BUILDER_FEATURES = saved_default
 
 
-def model_ctor_line(regs, builder_arg, features_arg, kw):
+def model_ctor_line(regs, builder_arg, features_arg, kw, subdefault=None):
     b = "none" if builder_arg[0] == "none" else f"{builder_arg[0]}:99"
     if features_arg[0] == "none":
         f = "none"
@@ -168,7 +245,8 @@ def model_ctor_line(regs, builder_arg, features_arg, kw):
         f = f"str:{features_arg[1]}"
     else:
         f = "list:" + fmt_list(features_arg[1])          # a tuple is read like a list
-    return f"c20 construct {fmt_regs(regs)} 0,1 {b} {f} {1 if kw else 0}"
+    dflt = "0,1" if subdefault is None else fmt_list(subdefault)
+    return f"c20 construct {fmt_regs(regs)} {dflt} {b} {f} {1 if kw else 0}"
 
 
 def run(ctx: Ctx):
@@ -211,8 +289,10 @@ def run(ctx: Ctx):
             k = r.random()
             if k < 0.28:
                 ops.append(("register", r.choice(subsets)))
-            elif k < 0.38:
+            elif k < 0.36:
                 ops.append(("reregister", r.randint(0, 3)))          # the SAME class object again (an index into the classes made so far)
+            elif k < 0.40:
+                ops.append(("register-bad", r.choice(("none", "int", "unhashable-first"))))   # a class whose `features` cannot be walked: register() raises
             elif k < 0.8:
                 ops.append(("lookup", tuple(r.choice((0, 1, 2, 9)) for _ in range(r.randint(0, 3)))))
             else:
@@ -232,6 +312,10 @@ def run(ctx: Ctx):
                     c = op[1] % len(made)
                     regs.append(made[c]); cids.append(c)
                     ctx.count("interleaved:re-registrations")
+            elif op[0] == "register-bad":
+                ctx.count("interleaved:failing-registrations")
+                if out is not None and bad is None:
+                    bad = (j, "the registry unchanged after register() raised", out)
             elif op[0] == "lookup":
                 wi = spec_lookup(regs, op[1])
                 want = None if wi is None else cids[wi]          # the documented answer, as a class
@@ -245,8 +329,9 @@ def run(ctx: Ctx):
         ctx.case(("I", tuple(ops)) if nontriv else None)
         if bad is not None:
             j, want, out = bad
-            ctx.violation(f"history on one registry: lookup at step {j} differs from the documented answer for the registrations made so far",
-                          case={"op": "history", "ops": [list(o) for o in ops], "step": j}, expected=show(want), observed=show(out),
+            ctx.violation(f"history on one registry: step {j} ({ops[j][0]}) differs from the documented answer for the registrations made so far",
+                          case={"op": "history", "ops": [list(o) for o in ops], "step": j}, expected=show(want) if not isinstance(want, str) else want,
+                          observed=show(out) if not isinstance(out, str) else out,
                           stream="interleaved")
     # the same requests through the Lean code-mirror and the Lean spec
     drv = Driver()
@@ -293,6 +378,20 @@ def run(ctx: Ctx):
                     ccases.append({"op": "construct", "registrations": regs, "builder": ba, "features": fa, "kwargs": kw})
                     ctx.case(("K", regs, ba, fa, kw), sample=ccases[-1] | {"result": got} if len(ctx.samples) < 7 else None)
                     ctx.count("ctor:" + got.split()[0])
+    # registration through the helper `bs4.builder.register_treebuilders_from(module)` (how the shipped builders and plug-in modules
+    # register): every TreeBuilder subclass the module exports is registered, in the order of `__all__`, on every call - also when a
+    # class of that NAME was exported before, also when the same module is handed over twice
+    helper_stream(ctx)
+    # a subclass of BeautifulSoup with its own DEFAULT_BUILDER_FEATURES: the default request is the subclass's
+    for regs in regsets:
+        for sub in ((2,), (0,), (9,), (1, 0), (7,)):
+            for fa in (("none",), ("list", ()), ("tuple", ()), ("str", 0)):
+                got = constructor_case(regs, ("none",), fa, False, subdefault=sub)
+                clines.append(model_ctor_line(regs, ("none",), fa, False, subdefault=sub))
+                cimpl.append(got)
+                ccases.append({"op": "construct", "registrations": regs, "builder": ("none",), "features": fa, "kwargs": False, "subclass_default": sub})
+                ctx.case(("KS", regs, fa, sub))
+                ctx.count("ctor-subclass-default:" + got.split()[0])
     crep = drv.ask(clines)
     for l, a, b, c in zip(clines, cimpl, crep, ccases):
         if a != b:
@@ -321,6 +420,10 @@ def replay(path):
                 if made:
                     k = op[1] % len(made)
                     regs.append(made[k]); cids.append(k); print(j, "register class", k, "AGAIN")
+            elif op[0] == "register-bad":
+                print(j, "register a class whose features cannot be walked ->", out or "raised, registry unchanged")
+                if out is not None:
+                    rc = 1
             elif op[0] == "lookup":
                 wi = spec_lookup(regs, op[1])
                 want = None if wi is None else cids[wi]
@@ -331,7 +434,8 @@ def replay(path):
                 print(j, "read", op[1:], "(no effect on later answers)")
         return rc
     if c.get("op") == "construct":
-        got = constructor_case([tuple(x) for x in c["registrations"]], tuple(c["builder"]), tuple(c["features"]) if c["features"][0] not in ("list", "tuple") else (c["features"][0], tuple(c["features"][1])), c["kwargs"])
+        got = constructor_case([tuple(x) for x in c["registrations"]], tuple(c["builder"]), tuple(c["features"]) if c["features"][0] not in ("list", "tuple") else (c["features"][0], tuple(c["features"][1])), c["kwargs"],
+                               subdefault=tuple(c["subclass_default"]) if c.get("subclass_default") is not None else None)
         print("implementation:", got, " property demands:", v.get("expected"))
         return 0 if got == v.get("expected") else 1
     print(json.dumps(v, indent=1))
